@@ -10,7 +10,7 @@ def nontrivial(prog, f):
 
 SPEC = streamcheck.StreamSpec(
     PROP, probes=['C01'],
-    cfg=progs.GenConfig(n_cmds=(4, 36), p_list=0.10, p_huge=0.04, p_newrel=0.15),
+    cfg=progs.GenConfig(n_cmds=(4, 36), p_list=0.10, p_huge=0.04, p_newrel=0.15, allow_zero_gdur=True),
     n_quick=1200, n_thorough=40000,
     nontrivial=nontrivial,
     evalcheck=True,
